@@ -42,7 +42,7 @@ namespace avel {
         [[nodiscard]]
         AVEL_FINL friend div_type<std::int32_t> div(std::int32_t n, Denominator denom) {
             std::int32_t q0 = n + (std::int64_t(denom.mp) * std::int64_t(n) >> 32);
-            q0 = (q0 >> denom.sh) - (n >> 31);
+            q0 = std::int32_t(std::uint32_t(q0 >> denom.sh) - std::uint32_t(n >> 31));
             std::int32_t q = (q0 ^ denom.d_sign) - denom.d_sign;
             std::int32_t r = n - (q * denom.d);
             return {q, r};
